@@ -37,8 +37,21 @@ def run(props, timeout=180, only=None, confirm=True, threads=8):
             if not os.path.exists(os.path.join(w, host)):
                 res['inconclusive'] = 'host file %s missing' % host
                 return res
-            with open(os.path.join(w, host), 'a') as fh:
-                fh.write('\n#[cfg(test)]\n#[path = "%s"]\nmod %s;\n' % (dst, mod))
+            wiring = '\n#[cfg(test)]\n#[path = "%s"]\nmod %s;\n' % (dst, mod)
+            mi = re.search(r'^//@inside (.+)$', src, re.M)
+            if mi:
+                # the scenario module becomes a child of an inline module of the host file (it sees that module's private items): the
+                # wiring goes right behind the line that opens it
+                text = open(os.path.join(w, host)).read()
+                key = mi.group(1).strip()
+                at = [m.end() for m in re.finditer(r'^[^\n]*' + re.escape(key) + r'[^\n]*\n', text, re.M)]
+                if len(at) != 1:
+                    res['inconclusive'] = 'lost anchor: %r in %s (%d occurrences)' % (key, host, len(at))
+                    return res
+                open(os.path.join(w, host), 'w').write(text[:at[0]] + wiring + text[at[0]:])
+            else:
+                with open(os.path.join(w, host), 'a') as fh:
+                    fh.write(wiring)
         env = dict(os.environ, CARGO_TARGET_DIR=os.path.join(ROOT, '.cache', 'demo-target'), CARGO_NET_OFFLINE='true')
         # own process group: a scenario that hangs must not leave its test binary behind, and nobody else's processes are touched
         import signal
